@@ -187,11 +187,13 @@ def stepFn (d : ModDesc) (r : Resolver) (start : St → Out St) : InitStep → S
   | .start => start
 
 /-- a call is emitted iff its guard holds; calling an Init* function whose definition was not emitted does not compile -/
+def runStep (d : ModDesc) (r : Resolver) (start : St → Out St) (s : St) (gs : List GuardAtom × InitStep) : Out St :=
+  if guardHolds d gs.1 then
+    (if guardHolds d (initDefinitionGuard gs.2) then stepFn d r start gs.2 s else .ub .unboundVar)
+  else .val s
+
 def runSteps (d : ModDesc) (r : Resolver) (start : St → Out St) (steps : List (List GuardAtom × InitStep)) (s : St) : Out St :=
-  foldM' (fun s (gs : List GuardAtom × InitStep) =>
-    if guardHolds d gs.1 then
-      (if guardHolds d (initDefinitionGuard gs.2) then stepFn d r start gs.2 s else .ub .unboundVar)
-    else .val s) s steps
+  foldM' (runStep d r start) s steps
 
 /-- the instance struct starts zeroed (static storage / calloc) -/
 def instantiate (d : ModDesc) (r : Resolver) (start : St → Out St) (w : World) : Out St :=
